@@ -23,9 +23,11 @@ ChkPair(e) ==
     /\ e.v \in {"pairing", "fast", "prepared"}
     /\ JacOK("G1", e.p) /\ JacOK("G2", e.q) /\ Canon("Fr", e.ka) /\ Canon("Fr", e.kb) /\ GtCanon(e.out)
     /\ LET P == AbsJ("G1", e.p)  Qp == AbsJ("G2", e.q)
-       IN /\ P = Dl("G1", e.ka) /\ Qp = Dl("G2", e.kb)
-          /\ e.out = Ser12(PairDlog(FromBE(e.ka), FromBE(e.kb)))
-          /\ (e.full => e.out = Ser12(Pair(P, Qp)))
+       IN IF "nodl" \in DOMAIN e /\ e.nodl
+          THEN Qp = Dl("G2", e.kb) /\ P # Inf /\ e.out = Ser12(Pair(P, Qp))      \* no logarithm known for P: the textbook pairing only
+          ELSE /\ P = Dl("G1", e.ka) /\ Qp = Dl("G2", e.kb)
+               /\ e.out = Ser12(PairDlog(FromBE(e.ka), FromBE(e.kb)))
+               /\ (e.full => e.out = Ser12(Pair(P, Qp)))
 ChkPairLaws(e) ==
     /\ JacOK("G1", e.p) /\ JacOK("G2", e.q) /\ JacOK("G1", e.p2) /\ JacOK("G2", e.q2)
     /\ \A x \in {e.e_pq, e.e_p2q, e.e_pq2, e.e_pp2_q, e.e_p_qq2, e.mul_p, e.mul_q, e.e_cp_dq, e.e_pow, e.erm1_e} : GtCanon(x)
